@@ -675,7 +675,7 @@ func (gen *Generator) GenerateCallBySymbol(sym *SexpSymbol, args []Sexp, orig Se
 
 	oldtail := gen.Tail
 	gen.Tail = false
-	if oldtail && sym.name == gen.funcname {
+	if oldtail && sym.name == gen.funcname && gen.selfCallArityOk(sym, len(args)) {
 		err := gen.GenerateCallArgsForFunction(gen.LookupKnownFunction(sym), args)
 		if err != nil {
 			return err
@@ -693,6 +693,24 @@ func (gen *Generator) GenerateCallBySymbol(sym *SexpSymbol, args []Sexp, orig Se
 	}
 	gen.Tail = oldtail
 	return nil
+}
+
+// selfCallArityOk reports whether a self call with nargs arguments can be
+// compiled as a jump back to the start of the function being generated. A
+// call with the wrong number of arguments is compiled as an ordinary call,
+// which reports the arity error when it is executed.
+func (gen *Generator) selfCallArityOk(sym *SexpSymbol, nargs int) bool {
+	var function *SexpFunction
+	if gen.knownFunctions != nil {
+		function = gen.knownFunctions[sym.number]
+	}
+	if function == nil {
+		return true
+	}
+	if function.varargs {
+		return nargs >= function.nargs
+	}
+	return nargs == function.nargs
 }
 
 func (gen *Generator) GenerateBuilder(fun Sexp, args []Sexp) error {
